@@ -15,7 +15,7 @@ import time
 from lib.coqterm import cbytes, cbool, copt, clist, cN, cnat, hx, unhx
 
 ID = "C46"
-QUICK_N = 2400
+QUICK_N = 2000
 THOROUGH_N = 12000
 SHARD = 800
 RULE = ("Request = route (every rule of the introspected tornado router incl. static rules, or a path matching no rule; "
@@ -25,7 +25,7 @@ RULE = ("Request = route (every rule of the introspected tornado router incl. st
         "token arguments (0-3 values in query and form body: right, wrong, padded with blanks/control characters, empty, "
         "non-ASCII, not UTF-8) x XSRF form (12 ways of pairing cookie and token) x Sec-Fetch-Site (absent, same-origin, none, "
         "cross-site, same-site, case variants, empty, junk; header name case) x password mode (plaintext / argon2 hash) x "
-        "WebSocket upgrade headers. 70% draws from the main forms, 30% from the adversarial dictionaries; thorough adds the full "
+        "WebSocket upgrade headers. Plus histories (n/8 quick, n/4 thorough): 2-4 web_password changes (plaintext P/Q, argon2 hash A/B, empty = random token, invalid hash) each followed by 1-3 requests presenting the current / previous / older / wrong password via Bearer, ?token= or form body, with or without a session cookie. 70% draws from the main forms, 30% from the adversarial dictionaries; thorough adds the full "
         "product route x method x 19 credential forms (incl. near misses of the password) x XSRF/Sec-Fetch-Site grid (about 40000 cases). Non-trivial = carries some "
         "credential, XSRF or Sec-Fetch-Site material or an unsafe method; distinct by canonical JSON.")
 TRUSTED = ["Coq 8.16.1 kernel (coqc), vm_compute for the table checks and case evaluation",
@@ -46,6 +46,12 @@ COQ_PRELUDE = "From MV Require Import Model.WebAuth.\n"
 PLAIN = "hunter2"
 ARGON_HASH = "$argon2id$v=19$m=8,t=1,p=1$c2FsdHNhbHQ$ieVgG5ysTJFx4k/KvmC9aQ"   # hash of "test" (cheap parameters)
 ARGON_PLAIN = "test"
+ARGON_HASH_B = "$argon2id$v=19$m=8,t=1,p=1$c2FsdHNhbHQy$EKjv004XL+FBrzoTMyoJtPZn1/4+aRey8kZiIQgTwQs"   # hash of "test2"
+ARGON_PLAIN_B = "test2"
+PLAIN_Q = "s3cond-pass"
+# web_password settings used in histories: name -> (option value, plaintext that is then valid; None = read token from web_url / unchanged)
+SETTINGS = {"P": (PLAIN, PLAIN), "Q": (PLAIN_Q, PLAIN_Q), "A": (ARGON_HASH, ARGON_PLAIN), "B": (ARGON_HASH_B, ARGON_PLAIN_B),
+            "E": ("", None), "X": ("$argon2id$", None)}
 CANARY = b"C46CANARY"
 XTOK = "0123456789abcdef0123456789abcdef"
 
@@ -372,6 +378,35 @@ def gen(rng, n, tier):
         if route in ws_routes and method == "GET":
             c["ws"] = rng.choice(["same", "same", "cross", "noorigin", "none"])
         out.append(_finish(S, c, rng))
+    # histories: web_password changes interleaved with requests presenting current / earlier / wrong passwords
+    mitm_impl = [(i, m) for i, r in enumerate(S["table"]) if r["kind"] == "Mitm" and r["prepare"] == "PrepSfs"
+                 for m, k in r["methods"] if k is not None]
+    for _ in range(n // 8 if tier == "quick" else n // 4):
+        steps = []
+        last = None
+        for _j in range(rng.randint(2, 4)):
+            name = rng.weighted([(5, "A"), (5, "B"), (3, "P"), (3, "Q"), (2, "E"), (1, "X")])
+            if name == last and rng.chance(0.8):
+                name = {"A": "B", "B": "A", "P": "Q", "Q": "P", "E": "A", "X": "B"}[name]
+            last = name
+            steps.append({"set": name})
+            for _k in range(rng.randint(1, 3)):
+                if rng.chance(0.75):
+                    route, method = rng.choice(mitm_impl)
+                    c = base(route, method)
+                    if method not in ("GET", "HEAD", "OPTIONS"):
+                        c["xsrf"] = rng.choice(["header", "arg", "v2"])
+                else:
+                    c = base(rng.below(nroutes) if rng.chance(0.9) else -1, rng.choice(METHODS))
+                    c["xsrf"] = rng.choice(["none", "header", "mismatch"])
+                    c["sfs"] = rng.choice(SFS_MAIN)
+                c["cookie"] = rng.weighted([(8, "none"), (1, "valid"), (1, "wrongvalue")])
+                c = _finish(S, c, rng)
+                del c["authz"], c["tokens"], c["mode"]
+                c["cred"] = {"which": rng.weighted([(4, "cur"), (4, "prev"), (1, "prev2"), (1, "wrong"), (1, rng.choice("PQAB"))]),
+                             "via": rng.weighted([(4, "bearer"), (4, "token"), (1, "body"), (1, "none")])}
+                steps.append({"req": c})
+        out.append({"k": "hist", "steps": steps})
     return out
 
 
@@ -538,7 +573,13 @@ def _body_kind(body: bytes) -> str:
 
 def run_impl(case):
     S = _setup()
+    if case.get("k") == "hist":
+        return _run_history(S, case)
     _set_mode(S, case.get("mode", "plain"))
+    return _run_one(S, case, (PLAIN if case.get("mode", "plain") == "plain" else ARGON_PLAIN).encode())
+
+
+def _run_one(S, case, pw):
     before = _reset(S)
     case["route"] = first_match(S, case["path"])   # corpus / finding cases carry a path; the rule index is derived
     del S["ran"][:]
@@ -548,11 +589,74 @@ def run_impl(case):
     name = S["application"].settings["auth_cookie_name"]().encode()
     setc = [l for l in head.split(b"\r\n") if l.lower().startswith(b"set-cookie:")]
     cookie_set = any(l.split(b":", 1)[1].strip().startswith(name + b"=") for l in setc)
-    pw = (PLAIN if case.get("mode", "plain") == "plain" else ARGON_PLAIN).encode()
     hay = head + body
-    leaked = CANARY in hay or CANARY.lower() in hay or ARGON_HASH.encode() in hay or (case.get("mode", "plain") == "plain" and pw in hay)
+    leaked = (CANARY in hay or CANARY.lower() in hay or ARGON_HASH.encode() in hay or ARGON_HASH_B.encode() in hay
+              or (pw not in (ARGON_PLAIN.encode(), ARGON_PLAIN_B.encode()) and pw in hay))
     return {"status": status, "ran": bool(S["ran"]), "cookie_set": cookie_set, "body_kind": _body_kind(body),
             "state_changed": before != after, "leaked": leaked, "route_seen": first_match(S, case["path"])}
+
+
+def _current_token(S):
+    """The password mitmweb announces when web_password is empty (public: WebAuth.web_url)."""
+    url = S["master"].addons.get("webauth").web_url
+    return url.split("?token=", 1)[1] if "?token=" in url else None
+
+
+def _run_history(S, case):
+    from mitmproxy import exceptions
+    opts = S["master"].options
+    S["mode"] = None          # single-request cases re-establish their own mode afterwards
+    S["base"] = None
+    if opts.web_password != PLAIN:
+        opts.web_password = PLAIN
+    cur = PLAIN.encode()
+    past = []                 # passwords that were valid earlier in this history
+    out = []
+    for st in case["steps"]:
+        if "set" in st:
+            val, plain = SETTINGS[st["set"]]
+            try:
+                opts.web_password = val
+            except exceptions.OptionsError:
+                pass
+            fresh = b""
+            if opts.web_password == "":
+                # empty option (also after the rollback of a rejected hash): mitmweb draws a new random token
+                fresh = _current_token(S).encode()
+                new = fresh
+            elif st["set"] == "X":
+                new = cur
+            else:
+                new = plain.encode()
+            if new != cur:
+                past.append(cur)
+                cur = new
+            out.append({"fresh": hx(fresh), "cur": hx(cur)})
+            S["base"] = None
+        else:
+            r = dict(st["req"])
+            cred = r.pop("cred")
+            which = cred["which"]
+            if which == "cur":
+                pw = cur
+            elif which == "prev":
+                pw = past[-1] if past else b"wrong"
+            elif which == "prev2":
+                pw = past[-2] if len(past) > 1 else b"wrong"
+            elif which == "wrong":
+                pw = b"wrong"
+            else:
+                pw = (SETTINGS[which][1] or "wrong").encode()
+            r["authz"], r["tokens"] = None, []
+            if cred["via"] == "bearer":
+                r["authz"] = hx(b"Bearer " + pw)
+            elif cred["via"] == "token":
+                r["tokens"] = [["q", hx(pw)]]
+            elif cred["via"] == "body":
+                r["tokens"] = [["b" if r["method"] in BODY_METHODS else "q", hx(pw)]]
+            o = _run_one(S, r, cur)
+            out.append({"req": r, "pw": hx(cur), "past": [hx(x) for x in past], "obs": o})
+    return {"steps": out}
 
 
 # ------------------------------------------------------------------ Coq term
@@ -570,7 +674,29 @@ def _decodable(b: bytes):
         return False
 
 
+def _obs_fields(obs):
+    bk = {"login_invalid": "KLoginInvalid", "login_required": "KLoginRequired", "empty": "KEmpty", "error_page": "KErrorPage", "other": "KOther"}[obs["body_kind"]]
+    return (f"{cN(obs['status'])} {cbool(obs['ran'])} {cbool(obs['cookie_set'])} {bk} {cbool(obs['state_changed'])} {cbool(obs['leaked'])}")
+
+
+def _req_fields(case):
+    m = case["method"] if case["method"] in METHODS else "OTHER"
+    route = "(@None nat)" if case["route"] < 0 else f"(Some {cnat(case['route'])})"
+    authz = copt(case["authz"], lambda h: cbytes(_model_bytes_of_header(unhx(h).strip(b" \t"))), "bytes")
+    toks = clist((copt(unhx(h) if _decodable(unhx(h)) else None, cbytes, "bytes") for _w, h in case["tokens"]), "(option bytes)")
+    sfs = copt(case["sfs"], lambda s: cbytes(s.strip(" \t").encode()), "bytes")
+    return f"{route} {m} {COOKIE_COQ[case['cookie']]} {authz} {toks} {XSRF_COQ[case['xsrf']]} {sfs}"
+
+
 def coq_case(case, obs):
+    if case.get("k") == "hist":
+        items = []
+        for st, o in zip(case["steps"], obs["steps"]):
+            if "set" in st:
+                items.append(f"HSet {cbytes(SETTINGS[st['set']][0].encode())} {cbytes(unhx(o['fresh']))}")
+            else:
+                items.append(f"HReq {_req_fields(o['req'])} (Obs {_obs_fields(o['obs'])})")
+        return f"Hist {cbytes(PLAIN.encode())} {clist(items, 'hstep')}"
     m = case["method"] if case["method"] in METHODS else "OTHER"
     route = "(@None nat)" if case["route"] < 0 else f"(Some {cnat(case['route'])})"
     authz = copt(case["authz"], lambda h: cbytes(_model_bytes_of_header(unhx(h).strip(b" \t"))), "bytes")
@@ -588,9 +714,10 @@ def _norm(b: bytes) -> bytes:
     return bytes(0x20 if (c <= 8 or 14 <= c <= 31) else c for c in b).strip(b" \t\n\r\x0b\x0c")
 
 
-def carries_valid_credentials(case) -> bool:
+def carries_valid_credentials(case, pw=None) -> bool:
     """Liberal reading of `carries a valid password/token or a valid session cookie`."""
-    pw = (PLAIN if case.get("mode", "plain") == "plain" else ARGON_PLAIN).encode()
+    if pw is None:
+        pw = (PLAIN if case.get("mode", "plain") == "plain" else ARGON_PLAIN).encode()
     if case["cookie"] == "valid":
         return True
     if any(_norm(unhx(h)) == pw for _w, h in case["tokens"]):
@@ -609,6 +736,23 @@ def _what(case, obs, msg):
 
 
 def oracle(case, obs):
+    if case.get("k") == "hist":
+        # every request of a history is judged against the password valid AT THAT MOMENT
+        out = []
+        for i, o in enumerate(obs["steps"]):
+            if "req" not in o:
+                continue
+            for v in _oracle_one(o["req"], o["obs"], unhx(o["pw"])):
+                if v["key"].startswith("unauthenticated-") and any(carries_valid_credentials(o["req"], unhx(p)) for p in o["past"]):
+                    v = {"key": "revoked-password-accepted",
+                         "what": f"step {i} of history {[s.get('set') or 'req' for s in case['steps']]}: a password that was valid "
+                                 f"earlier but is not the current one ({unhx(o['pw'])!r}) is still accepted: " + v["what"]}
+                out.append(v)
+        return out
+    return _oracle_one(case, obs, None)
+
+
+def _oracle_one(case, obs, pw):
     S = _setup()
     v = []
     route = case["route"]
@@ -619,7 +763,7 @@ def oracle(case, obs):
     sfs = case["sfs"].strip().lower() if case["sfs"] is not None else None
     cross = sfs in ("cross-site", "same-site")
     # 1. no valid credentials => refused with 403, nothing changes, nothing disclosed
-    if not carries_valid_credentials(case):
+    if not carries_valid_credentials(case, pw):
         if obs["state_changed"]:
             v.append({"key": "unauthenticated-state-changed", "what": _what(case, obs, "state changed without credentials")})
         if obs["leaked"]:
@@ -657,11 +801,20 @@ def oracle(case, obs):
 
 
 def nontrivial(case, obs):
+    if case.get("k") == "hist":
+        return any("set" in st for st in case["steps"]) and any("req" in st for st in case["steps"])
     return (case["cookie"] != "none" or case["authz"] is not None or bool(case["tokens"]) or case["xsrf"] != "none"
             or case["sfs"] is not None or case["method"] not in ("GET", "HEAD", "OPTIONS"))
 
 
 def classify(case, obs):
+    if case.get("k") == "hist":
+        tags = ["hist", "hist-len:" + str(len(case["steps"]))]
+        tags += ["hist-set:" + st["set"] for st in case["steps"] if "set" in st]
+        for st, o in zip(case["steps"], obs["steps"]):
+            if "req" in st:
+                tags.append(f"hist-req:{st['req']['cred']['which']}/{st['req']['cred']['via']}:" + ("ran" if o["obs"]["ran"] else "refused"))
+        return tags
     S = _setup()
     row = S["table"][case["route"]] if case["route"] >= 0 else None
     tags = ["route:" + (row["cls"] if row else "none"), "method:" + (case["method"] if case["method"] in METHODS else "OTHER"),
